@@ -106,6 +106,35 @@ def block_context(f, s):
     return None
 
 
+def expand_via(ctx, via):
+    """A local text → text helper on the path that is nothing but literal `replace`s of its argument (`fn escape(t) { t.replace("*/", "*\\/") }`)
+    stands for those replaces: they are added to the path in the spelling the template layer uses for a direct `.replace(..)`."""
+    out = list(via)
+    for name in via:
+        if not re.fullmatch(r'[A-Za-z_][A-Za-z0-9_]*', str(name)):
+            continue
+        gs = [g for g in ctx.astq['functions'] if g['name'].split('::')[-1] == name and g['file'].startswith('core/src/language/') and not g.get('loops') and not g.get('returns')]
+        if len(gs) != 1:
+            continue
+        ps = [p_['name'] for p_ in gs[0]['params'] if p_['name'] != 'self']
+        v = vt.unvar(gs[0].get('tail'))
+        reps = []
+        while isinstance(v, dict) and v.get('k') == 'call' and v.get('recv') is not None:
+            if v.get('f') == 'replace' and len(v.get('args', [])) == 2:
+                a0, a1 = vt.strip(v['args'][0]), vt.strip(v['args'][1])
+                if not (isinstance(a0, dict) and a0.get('k') == 'lit' and isinstance(a1, dict) and a1.get('k') == 'lit'):
+                    reps = None
+                    break
+                reps.append('replace(' + repr(str(a0.get('v'))) + ' → ' + repr(str(a1.get('v'))) + ')')
+            elif v.get('f') not in ('to_string', 'to_owned', 'into', 'as_str', 'clone', 'as_ref'):
+                reps = None
+                break
+            v = vt.unvar(v['recv'])
+        if reps and isinstance(v, dict) and v.get('k') == 'atom' and len(ps) == 1 and v.get('root') == ps[0] and not v.get('path'):
+            out += reps
+    return out
+
+
 def adequate(form, via, sep):
     vs = list(via)
     if form == 'LINE':
@@ -184,7 +213,7 @@ def run(ctx, rep):
                             raise core.Incomplete(f"X2: {be}: in {f['qual']} the doc text passes through `{builders[0]}`, which assembles its result in a loop with push_str — the comment form written there is not modelled")
                         rep.fail('X2', key + ':' + re.sub(r'\W+', '_', emit.seq_str(seq[max(0, ix - 1):ix])[:20]), f"{be}: doc text reaches the output in {f['qual']} outside any recognised comment form: {emit.seq_str(seq)[:140]}", site)
                         continue
-                    ok = adequate(form, c[2], sep)
+                    ok = adequate(form, expand_via(ctx, c[2]), sep)
                     if form == 'LINE' and not ok:
                         line_unsplit = True
                     # joins that introduce line breaks must re-emit the opener (or continuation) after them
